@@ -52,6 +52,14 @@ def run(ctx):
         base = prt_count_for(tab, sat, kelvin)
         phase = rng.randrange(5)
         nums, prt, ict, space = make_pass(rng, n + 4, 1, phase, base)
+        if k % 3 == 2:
+            # a data gap aligned with the PRT cycle (the four thermometer lines after a reset line missing): the anchor
+            # and monotonicity clauses must hold on such a pass, too (phase freedom is only compared on gap-free passes)
+            resets = [i for i, x in enumerate(nums) if (x - phase) % 5 == 0 and 10 < i < len(nums) - 10]
+            if resets:
+                i0 = rng.choice(resets)
+                sel = [i for i in range(len(nums)) if not (i0 < i <= i0 + 4)]
+                nums, prt, ict, space = ([a[i] for i in sel] for a in (nums, prt, ict, space))
         payload = {"sat": sat, "chan": chan, "nums": nums, "prt": prt, "ict": ict, "space": space, "counts": list(range(1024)),
                    "info": {"n": len(nums), "n0": 1, "gaps": False, "kinds": [], "phase": phase}}
         # (i) monotone, all counts
@@ -95,7 +103,7 @@ def run(ctx):
         # (iii) phase freedom: drop the first k lines
         cs = sorted(set([rng.randint(100, 900) for _ in range(6)]))
         full = c05.real_thermal(sat, chan, nums, list(prt), list(ict), list(space), cs)
-        for drop in (1, 2, 3, 4):
+        for drop in ((1, 2, 3, 4) if nums[-1] - nums[0] + 1 == len(nums) else ()):
             part = c05.real_thermal(sat, chan, nums[drop:], list(prt[drop:]), list(ict[drop:]), list(space[drop:]), cs)
             if part[0] != "ok" or full[0] != "ok":
                 ctx.violation("%s channel %d: outcome %s after dropping %d lines" % (sat, chan, part[0], drop), payload, cls="phase-outcome")
